@@ -454,6 +454,49 @@ func runC13(r *Rec) {
 			// the basket module account may mint and burn: coins minted here are the ones burnt below
 			bk.MintCoins(cc, "basket", sdk.NewCoins(sdk.NewInt64Coin("utest", supply)))
 		}
+		if r.Rng.Intn(6) == 0 {
+			// the same token under the layer2 naming (ku/<suffix>): its OWNER (or a stranger) sends the layer2 create-token
+			// message for the existing denomination with another cap and supply - a registered token is never re-created
+			info2 := info
+			info2.Denom = "ku/tst"
+			if err := tk.UpsertTokenInfo(cc, info2); err != nil {
+				continue
+			}
+			sender := owner
+			if r.Rng.Intn(3) == 0 {
+				sender = (owner + 1) % 3
+			}
+			newCap := []int64{0, capv + 1000, supply, capv}[r.Rng.Intn(4)]
+			newSup := []int64{0, supply, supply / 2}[r.Rng.Intn(3)]
+			l2 := layer2keeper.NewMsgServerImpl(w.app.Layer2Keeper)
+			npl := gk.GetNetworkProperties(cc)
+			npl.MintingFtFee, npl.MintingNftFee = 1, 1 // affordable (the default fee exceeds every balance of the world)
+			if e := gk.SetNetworkProperties(cc, npl); e != nil {
+				r.Count("l2-recreate:fee-not-set")
+			}
+			var err error
+			if r.Rng.Intn(2) == 0 {
+				err = withCache(cc, func(c sdk.Context) error {
+					_, e := l2.MintCreateFtTx(sdk.WrapSDKContext(c), &layer2types.MsgMintCreateFtTx{Sender: w.addrs[sender].String(), DenomSuffix: "tst", Name: "t", Symbol: "T", Decimals: 6, Cap: sdkmath.NewInt(newCap), Supply: sdkmath.NewInt(newSup), FeeRate: sdk.OneDec(), Owner: w.addrs[sender].String()})
+					return e
+				})
+			} else {
+				err = withCache(cc, func(c sdk.Context) error {
+					_, e := l2.MintCreateNftTx(sdk.WrapSDKContext(c), &layer2types.MsgMintCreateNftTx{Sender: w.addrs[sender].String(), DenomSuffix: "tst", Name: "t", Symbol: "T", Decimals: 6, Cap: sdkmath.NewInt(newCap), Supply: sdkmath.NewInt(newSup), FeeRate: sdk.OneDec(), Owner: w.addrs[sender].String()})
+					return e
+				})
+			}
+			ti := tk.GetTokenInfo(cc, "ku/tst")
+			r.Count(fmt.Sprintf("l2-recreate:%v", err == nil))
+			if err != nil {
+				r.Count("l2-recreate:err:" + fmt.Sprintf("%.60v", err))
+			}
+			r.Case(fmt.Sprintf("l2recreate/%d/%d/%d/%d/%d/%v", supply, capv, sender, newCap, newSup, err == nil), true)
+			if ti == nil || !ti.Supply.Equal(sdkmath.NewInt(supply)) || !ti.SupplyCap.Equal(sdkmath.NewInt(capv)) || ti.Owner != w.addrs[owner].String() {
+				r.Fail("C13/registry/registered-token-re-created", fmt.Sprintf("token ku/tst (recorded supply %d, cap %d, owner %d): a layer2 create-token message of account %d with cap %d and supply %d (err=%v) left the registry at %+v", supply, capv, owner, sender, newCap, newSup, err, ti), nil)
+			}
+			continue
+		}
 		switch r.Rng.Intn(4) {
 		case 3: // governance edit (enacted UpsertTokenInfos proposal) of the registered token, then a registry mint
 			psu := []int64{0, 0, supply, supply + 5, int64(r.Rng.Intn(1000))}[r.Rng.Intn(5)]
